@@ -63,6 +63,11 @@ pub fn load_findings() -> FindingsFile {
 
 impl Report {
     pub fn new(id: &str, tier: &str, seed: u64) -> Self {
+        // stale witnesses of earlier runs of the same (tier, seed) would be confusing
+        if let Ok(rd) = std::fs::read_dir(format!("{}/replays/{}", VERIF_ROOT, id)) {
+            let prefix = format!("{}-{}-", tier, seed);
+            for e in rd.flatten() { if e.file_name().to_string_lossy().starts_with(&prefix) { std::fs::remove_file(e.path()).ok(); } }
+        }
         Report { id: id.to_string(), tier: tier.to_string(), seed, start: Instant::now(), inner: Mutex::new(Inner::default()) }
     }
     pub fn quick(&self) -> bool { self.tier == "quick" }
